@@ -6,7 +6,7 @@
 (* result with the contract (property layer).                              *)
 (*                                                                         *)
 (* Universe.  Three particle arrays pa_d, pa_s1, pa_s2, each with the      *)
-(* properties Base and the constant cnst.  Two probe equations:            *)
+(* properties Base and the constants cnst, scn.  Two probe equations:      *)
 (*   ProbeA  dest pa_d, sources one of SrcOpts, explicit names and method  *)
 (*           placement one of Shapes, precomputed symbols one of SymSets   *)
 (*   ProbeB  initialize(d_idx, d_m) on pa_d, no sources (a second equation *)
@@ -18,7 +18,12 @@
 (* "evaluator": SPHEvaluator); part Dup: SEVERAL INSTANCES of ProbeA on    *)
 (* pa_d with different sources (DupOpts), structure "iterated" = sub-      *)
 (* groups of an iterated group; part Multi: an integrator over 2-3 arrays  *)
-(* with a stepper class each, given in the orders StepOrders.  One fault:  *)
+(* with a stepper class each, given in the orders StepOrders; part Const:  *)
+(* constants among the explicit names of both roles, the list of arrays in *)
+(* every order; part Stages: a stepper with 3 / 4 stages and names of      *)
+(* their own; part Hist: HISTORIES - a complete and an incomplete problem  *)
+(* built one after the other in one process, from the same equation        *)
+(* objects or fresh ones.  One fault:                                      *)
 (*   none | one name removed from one array | the dest or the last source  *)
 (*   of one instance of ProbeA, or one stepper's array, misspelt (pa_zz)   *)
 (*   [Combo: a removal AND a misspelling]                                  *)
@@ -39,15 +44,18 @@
 (* no masking): holds for Variant = "closure" (the code since the repair   *)
 (* of C20-symbol-requirements-unchecked) and is expected to FAIL - TLC     *)
 (* finds a violating case by itself - for "explicit" (the code before the  *)
-(* repair), "none", "dedup" and "laststepper" (seeded defects): the        *)
-(* universe is sensitive to each; ContractOrKnown: every failure is        *)
-(* explained by a finding of K.                                            *)
+(* repair), "none", "dedup", "laststepper", "constleak", "stage12" and     *)
+(* "memo" (seeded defects): the universe is sensitive to each;             *)
+(* ContractOrKnown: every failure is explained by a finding of K.          *)
 (***************************************************************************)
 EXTENDS Setup, Json
 
 CONSTANTS SymSets, Shapes, SrcOpts, Pairs, Combo, Wide,
           DupShapes, DupSyms, DupOpts, DupPairs,    \* part Dup
           StepStructs, StepOrders,                  \* part Multi
+          ConstOrders, ConstPairs,                  \* part Const
+          StageOpts, StageOrders,                   \* part Stages
+          HistSyms, HistPairs,                      \* part Hist
           Variant,      \* mechanism that is run
           K,            \* ids of findings that may explain a failure
           Emit          \* TRUE: print every case (replayed into the code)
@@ -90,22 +98,46 @@ StepStructsQ == {"flat"}
 StepStructsT == {"flat", "group", "multistage"}
 StepOrdersQ == {<<"pa_d", "pa_s1", "pa_s2">>, <<"pa_s2", "pa_d", "pa_s1">>,
                 <<"pa_s1", "pa_d">>}
-StepOrdersT == {<<"pa_d", "pa_s1", "pa_s2">>, <<"pa_d", "pa_s2", "pa_s1">>,
-                <<"pa_s1", "pa_d", "pa_s2">>, <<"pa_s1", "pa_s2", "pa_d">>,
-                <<"pa_s2", "pa_d", "pa_s1">>, <<"pa_s2", "pa_s1", "pa_d">>,
-                <<"pa_s1", "pa_d">>, <<"pa_d", "pa_s2">>}
-NoDup == {}
+AllOrders == {<<"pa_d", "pa_s1", "pa_s2">>, <<"pa_d", "pa_s2", "pa_s1">>,
+              <<"pa_s1", "pa_d", "pa_s2">>, <<"pa_s1", "pa_s2", "pa_d">>,
+              <<"pa_s2", "pa_d", "pa_s1">>, <<"pa_s2", "pa_s1", "pa_d">>}
+StepOrdersT == AllOrders \cup {<<"pa_s1", "pa_d">>, <<"pa_d", "pa_s2">>}
+\* part Const: the order of the list of particle arrays
+ConstOrdersQ == AllOrders
+ConstPairsQ == {<<"flat", "compiler">>, <<"group", "evaluator">>}
+ConstPairsT == ConstPairsQ \cup {<<"multistage", "stepper">>,
+                                 <<"nested", "compiler">>}
+\* part Stages: the methods of the stepper of pa_d, names of their own each
+Me(m, d) == [m |-> m, d |-> d]
+Stages3 == <<Me("stage1", {"x", "au"}), Me("stage2", {"x", "u"}),
+             Me("stage3", {"x", "foo"})>>
+Stages4 == <<Me("initialize", {"x", "rho"}), Me("stage1", {"au"}),
+             Me("stage2", {"u"}), Me("stage3", {"foo"}),
+             Me("stage4", {"bar", "cnst"})>>
+StageOptsQ == {Stages3, Stages4}
+StageOrdersQ == {<<"pa_d">>, <<"pa_s1", "pa_d">>}
+StageOrdersT == StageOrdersQ \cup {<<"pa_d", "pa_s2">>}
+\* part Hist
+HistSymsQ == {{"VIJ"}}
+HistSymsT == {{}, {"VIJ"}, {"WJ"}}
+HistPairsQ == {<<"flat", "compiler">>, <<"group", "stepper">>}
+HistPairsT == HistPairsQ \cup {<<"nested", "evaluator">>,
+                               <<"multistage", "compiler">>}
 KAll == KnownIds
 KNone == {}
 
 Base == {"x", "y", "z", "u", "v", "w", "h", "rho", "m", "foo", "bar", "au",
          "tag", "pid", "gid"}
-Consts == {"cnst"}
+Consts == {"cnst", "scn"}            \* constants (of every array)
 ArrNames == <<"pa_d", "pa_s1", "pa_s2">>
 Wrong == "pa_zz"
 
-VARIABLES case, pc, stage, groups, all, ei, out
-vars == <<case, pc, stage, groups, all, ei, out>>
+\* h: the history - the problems built one after the other in one process
+\* [builds : Seq(case), reuse, mutate]; bi: the build going on; memo: what a
+\* mechanism remembers from earlier builds (seeded defect "memo")
+VARIABLES h, bi, pc, stage, groups, all, ei, out, memo
+vars == <<h, bi, pc, stage, groups, all, ei, out, memo>>
+case == h.builds[bi]
 
 -----------------------------------------------------------------------------
 (* the universe *)
@@ -114,26 +146,39 @@ ProbeA(sh, sy, so) == [name |-> "ProbeA", dest |-> "pa_d", sources |-> so,
                        meth |-> sh.meth]
 ProbeB == [name |-> "ProbeB", dest |-> "pa_d", sources |-> <<>>,
            d |-> {"m"}, s |-> {}, syms |-> {}, meth |-> "initialize"]
+\* a stepper: its methods with the names x of their d_x arguments; d = all
+StepRec(a, n, ms) == [array |-> a, name |-> n, meths |-> ms,
+                      d |-> UNION {ms[j].d : j \in DOMAIN ms}]
 \* one stepper class per array, each with a name of its own
 StepFor(a) ==
-    CASE a = "pa_d" -> [array |-> a, name |-> "ProbeStep", d |-> {"x", "au"}]
-      [] a = "pa_s1" -> [array |-> a, name |-> "ProbeStepS", d |-> {"u", "bar"}]
-      [] a = "pa_s2" -> [array |-> a, name |-> "ProbeStepT", d |-> {"rho", "m"}]
+    CASE a = "pa_d" -> StepRec(a, "ProbeStep", <<Me("stage1", {"x", "au"})>>)
+      [] a = "pa_s1" ->
+             StepRec(a, "ProbeStepS", <<Me("stage1", {"u", "bar"})>>)
+      [] a = "pa_s2" ->
+             StepRec(a, "ProbeStepT", <<Me("stage1", {"rho", "m"})>>)
 \* sos: the sources of the instances of ProbeA (one instance each, all on
 \* pa_d).  ProbeB comes first in the flat and nested structures, after the
 \* first instance otherwise.
 EqOrder(st, as) == IF st \in {"flat", "nested"} THEN <<ProbeB>> \o as
                    ELSE <<Head(as), ProbeB>> \o Tail(as)
-FullArrays == [i \in 1 .. 3 |-> [name |-> ArrNames[i],
-                                 props |-> Base \cup Consts,
-                                 consts |-> Consts]]
-\* ord: the arrays given to the integrator, in the order they are given
-Mk(sh, sy, sos, st, ap, ord) ==
+\* ao: the list of particle arrays, in the order it is handed over
+FullArrays(ao) == [i \in 1 .. 3 |-> [name |-> ao[i],
+                                     props |-> Base \cup Consts,
+                                     consts |-> Consts]]
+\* (outside part Const the order of the list varies with the structure)
+OrderFor(st) ==
+    CASE st = "flat" -> <<"pa_d", "pa_s1", "pa_s2">>
+      [] st = "group" -> <<"pa_s2", "pa_s1", "pa_d">>
+      [] st = "nested" -> <<"pa_s1", "pa_d", "pa_s2">>
+      [] st = "multistage" -> <<"pa_s2", "pa_d", "pa_s1">>
+      [] st = "iterated" -> <<"pa_s1", "pa_s2", "pa_d">>
+\* sts: the steppers, in the order they are given to the integrator
+Mk(sh, sy, sos, st, ap, sts, ao) ==
     [api |-> IF ap = "evaluator" THEN "evaluator" ELSE "compiler",
-     structure |-> st, arrays |-> FullArrays,
+     structure |-> st, arrays |-> FullArrays(ao),
      eqs |-> EqOrder(st, [j \in DOMAIN sos |-> ProbeA(sh, sy, sos[j])]),
-     steppers |-> IF ap = "stepper" THEN [j \in DOMAIN ord |-> StepFor(ord[j])]
-                  ELSE <<>>]
+     steppers |-> IF ap = "stepper" THEN sts ELSE <<>>]
+Steppers(ord) == [j \in DOMAIN ord |-> StepFor(ord[j])]
 \* names worth removing: all that some role needs, and two nobody needs
 Relevant(c) ==
     UNION {Required(SymTab, c.eqs[i], r, TRUE) :
@@ -181,84 +226,138 @@ Faulty(c) ==
               THEN {Misspell(Remove(c, r[1], r[2]), w) :
                     r \in Removals(c), w \in Misspellings(c)}
               ELSE {})
+One(c) == [builds |-> <<c>>, reuse |-> FALSE, mutate |-> FALSE]
+\* Histories: a complete problem and the same problem with one needed name
+\* removed from one array, built one after the other in either order - from
+\* the SAME equation and stepper objects (and then the same array objects
+\* with the property removed / added, or new arrays of the same names) or
+\* from fresh objects.
+Histories(c) ==
+    {[builds |-> bs, reuse |-> ru[1], mutate |-> ru[2]] :
+     bs \in UNION {UNION {{<<c, Remove(c, a, n)>>, <<Remove(c, a, n), c>>} :
+                          n \in NeededBy(c, a)} : a \in Range(ArrNames)},
+     ru \in {<<TRUE, TRUE>>, <<TRUE, FALSE>>, <<FALSE, FALSE>>}}
 
-\* Three parts.  Core: one instance of ProbeA, at most one stepper.  Dup:
-\* SEVERAL INSTANCES of ProbeA on pa_d with different sources (a removal
-\* from, or a misspelling of, a source of only the earlier / only the later
-\* instance).  Multi: an integrator over SEVERAL ARRAYS with a stepper class
-\* each, given in every order of StepOrders (exactly one array - first,
-\* middle or last given - lacks a name its stepper needs, or is misspelt).
-OneStepper == <<"pa_d">>
+\* Parts.  Core: one instance of ProbeA, at most one stepper.  Dup: SEVERAL
+\* INSTANCES of ProbeA on pa_d with different sources (a removal from, or a
+\* misspelling of, a source of only the earlier / only the later instance).
+\* Multi: an integrator over SEVERAL ARRAYS with a stepper class each, given
+\* in every order of StepOrders (exactly one array - first, middle or last
+\* given - lacks a name its stepper needs, or is misspelt).  Const: the
+\* explicit names include CONSTANTS for both roles and the list of arrays
+\* comes in every order (the name an array lacks is a constant of arrays
+\* listed before and after it).  Stages: the stepper of pa_d has 3 or 4
+\* STAGES (and initialize) with names of their own.  Hist: two builds in one
+\* process.
+OneStepper == <<StepFor("pa_d")>>
 Init ==
     /\ \/ \E sh \in Shapes, sy \in SymSets, so \in SrcOpts, pr \in Pairs :
-             case \in Faulty(Mk(sh, sy, <<so>>, pr[1], pr[2], OneStepper))
+             \E c \in Faulty(Mk(sh, sy, <<so>>, pr[1], pr[2], OneStepper,
+                                OrderFor(pr[1]))) : h = One(c)
        \/ \E sh \in DupShapes, sy \in DupSyms, sos \in DupOpts,
              pr \in DupPairs :
-             case \in Faulty(Mk(sh, sy, sos, pr[1], pr[2], OneStepper))
+             \E c \in Faulty(Mk(sh, sy, sos, pr[1], pr[2], OneStepper,
+                                OrderFor(pr[1]))) : h = One(c)
        \/ \E sy \in DupSyms, st \in StepStructs, ord \in StepOrders :
-             case \in Faulty(Mk(Shape({"foo"}, {}, "initialize"), sy,
-                                <<<<"pa_s1">>>>, st, "stepper", ord))
-    /\ pc = "start" /\ stage = 0 /\ groups = <<>> /\ all = <<>> /\ ei = 0
-    /\ out = NoRej
+             \E c \in Faulty(Mk(Shape({"foo"}, {}, "initialize"), sy,
+                                <<<<"pa_s1">>>>, st, "stepper",
+                                Steppers(ord), OrderFor(st))) : h = One(c)
+       \/ \E so \in {<<"pa_s1", "pa_s2">>, <<"pa_d", "pa_s1">>},
+             pr \in ConstPairs, ao \in ConstOrders :
+             \E c \in Faulty(Mk(Shape({"foo", "cnst"}, {"bar", "scn"},
+                                      "loop"), {}, <<so>>, pr[1], pr[2],
+                                OneStepper, ao)) : h = One(c)
+       \/ \E ms \in StageOpts, ord \in StageOrders :
+             \E c \in Faulty(Mk(Shape({"foo"}, {}, "initialize"), {},
+                                <<<<"pa_s1">>>>, "flat", "stepper",
+                                [j \in DOMAIN ord |->
+                                   IF ord[j] = "pa_d"
+                                   THEN StepRec("pa_d", "ProbeStepN", ms)
+                                   ELSE StepFor(ord[j])],
+                                OrderFor("group"))) : h = One(c)
+       \/ \E sy \in HistSyms, pr \in HistPairs :
+             h \in Histories(Mk(Shape({"foo", "cnst"}, {"bar"}, "loop"), sy,
+                                <<<<"pa_s1">>>>, pr[1], pr[2], OneStepper,
+                                OrderFor(pr[1])))
+    /\ bi = 1 /\ pc = "start" /\ stage = 0 /\ groups = <<>> /\ all = <<>>
+    /\ ei = 0 /\ out = NoRej /\ memo = {}
 
 -----------------------------------------------------------------------------
 (* the mechanism, step by step *)
+\* Seeded defects (Variant; they measure that the universe is sensitive to
+\* them, see Contract).  "dedup": an equation whose class and dest were seen
+\* earlier in this evaluator is not checked.  "laststepper": only the
+\* stepper given last has its properties checked.  "constleak": an array
+\* also counts as having the constants of the arrays listed before it.
+\* "stage12": of a stepper only initialize, stage1 and stage2 are checked.
+\* "memo": an equation object that passed the check once is not checked
+\* again in a later build with arrays of the same names.  Otherwise the
+\* repaired mechanism.
+NV == IF Variant \in {"explicit", "none"} THEN Variant ELSE "closure"
+Leak(c) ==
+    [c EXCEPT !.arrays = [i \in DOMAIN @ |->
+        [@[i] EXCEPT !.props = @ \cup UNION {c.arrays[l].consts :
+                                             l \in 1 .. i}]]]
+Seen(c) == IF Variant = "constleak" THEN Leak(c) ELSE c
+Early == {"initialize", "stage1", "stage2"}
+Cut(c) ==
+    [c EXCEPT !.steppers = [i \in DOMAIN c.steppers |->
+        LET ms == c.steppers[i].meths
+        IN [c.steppers[i] EXCEPT !.d =
+               UNION {ms[j].d : j \in {l \in DOMAIN ms : ms[l].m \in Early}}]]]
+
 Start ==
     /\ pc = "start"
-    /\ Emit => PrintT(<<"CASE", ToJson(case)>>)
-    /\ pc' = "group" /\ stage' = 1
-    /\ UNCHANGED <<case, groups, all, ei, out>>
+    /\ (Emit /\ bi = 1) => PrintT(<<"CASE", ToJson(h)>>)
+    /\ pc' = "group" /\ stage' = 1 /\ out' = NoRej
+    /\ UNCHANGED <<h, bi, groups, all, ei, memo>>
 
 \* AccelerationEval.__init__ of the evaluator of this stage
 GroupEquations ==
     /\ pc = "group"
     /\ groups' = M_Group(Stages(case)[stage])
     /\ pc' = "flatten"
-    /\ UNCHANGED <<case, stage, all, ei, out>>
+    /\ UNCHANGED <<h, bi, stage, all, ei, out, memo>>
 
 Flatten ==
     /\ pc = "flatten"
     /\ all' = M_Flatten(groups)
     /\ ei' = 1
     /\ pc' = "dest"
-    /\ UNCHANGED <<case, stage, groups, out>>
+    /\ UNCHANGED <<h, bi, stage, groups, out, memo>>
 
 Cur == case.eqs[all[ei].i]
 Reject(r) == out' = r /\ pc' = "done"
-
-\* Seeded defects (Variant; they measure that the universe is sensitive to
-\* them, see Contract): "dedup" - an equation whose class and dest were
-\* seen earlier in this evaluator is not checked; "laststepper" - only the
-\* stepper given last has its properties checked.  Otherwise the repaired
-\* mechanism.
-NV == IF Variant \in {"explicit", "none"} THEN Variant ELSE "closure"
 SeenBefore ==
     \E l \in 1 .. (ei - 1) :
         /\ case.eqs[all[l].i].name = Cur.name
         /\ case.eqs[all[l].i].dest = Cur.dest
+Skip == \/ Variant = "dedup" /\ SeenBefore
+        \/ Variant = "memo" /\ all[ei].i \in memo
 
 CheckDest ==
     /\ pc = "dest" /\ ei <= Len(all)
-    /\ IF Variant = "dedup" /\ SeenBefore
+    /\ IF Skip
        THEN pc' = "dest" /\ ei' = ei + 1 /\ out' = out
        ELSE /\ ei' = ei
             /\ LET r == M_CheckDest(case, Cur)
                IN IF r.k # "pass" THEN Reject(r)
                   ELSE pc' = "sources" /\ out' = out
-    /\ UNCHANGED <<case, stage, groups, all>>
+    /\ UNCHANGED <<h, bi, stage, groups, all, memo>>
 
 CheckSources ==
     /\ pc = "sources"
     /\ LET r == M_CheckSources(case, Cur)
        IN IF r.k # "pass" THEN Reject(r) ELSE pc' = "props" /\ out' = out
-    /\ UNCHANGED <<case, stage, groups, all, ei>>
+    /\ UNCHANGED <<h, bi, stage, groups, all, ei, memo>>
 
 CheckProps ==
     /\ pc = "props"
-    /\ LET r == M_CheckProps(SymTab, case, Cur, NV)
-       IN IF r.k # "pass" THEN Reject(r) /\ ei' = ei
-          ELSE pc' = "dest" /\ ei' = ei + 1 /\ out' = out
-    /\ UNCHANGED <<case, stage, groups, all>>
+    /\ LET r == M_CheckProps(SymTab, Seen(case), Cur, NV)
+       IN IF r.k # "pass" THEN Reject(r) /\ ei' = ei /\ memo' = memo
+          ELSE /\ pc' = "dest" /\ ei' = ei + 1 /\ out' = out
+               /\ memo' = IF h.reuse THEN memo \cup {all[ei].i} ELSE memo
+    /\ UNCHANGED <<h, bi, stage, groups, all>>
 
 \* all equations of this evaluator passed: the next stage's, or the compiler
 EvalDone ==
@@ -266,14 +365,14 @@ EvalDone ==
     /\ IF stage < Len(Stages(case))
        THEN stage' = stage + 1 /\ pc' = "group"
        ELSE stage' = stage /\ pc' = "helpers"
-    /\ UNCHANGED <<case, groups, all, ei, out>>
+    /\ UNCHANGED <<h, bi, groups, all, ei, out, memo>>
 
 \* SPHCompiler.__init__ -> IntegratorCythonHelper._check_integrator_steppers
 Helpers ==
     /\ pc = "helpers"
     /\ LET r == M_StepperNames(case)
        IN IF r.k # "pass" THEN Reject(r) ELSE pc' = "codegen" /\ out' = out
-    /\ UNCHANGED <<case, stage, groups, all, ei>>
+    /\ UNCHANGED <<h, bi, stage, groups, all, ei, memo>>
 
 \* compile() -> get_code(): _check_arrays_for_properties per stepper method
 Codegen ==
@@ -282,19 +381,26 @@ Codegen ==
            r == IF Variant = "laststepper" /\ n > 1
                 THEN M_StepperProps([case EXCEPT
                          !.steppers = <<case.steppers[n]>>])
+                ELSE IF Variant = "stage12" THEN M_StepperProps(Cut(case))
                 ELSE M_StepperProps(case)
        IN out' = IF r.k # "pass" THEN r ELSE Acc
     /\ pc' = "done"
-    /\ UNCHANGED <<case, stage, groups, all, ei>>
+    /\ UNCHANGED <<h, bi, stage, groups, all, ei, memo>>
+
+\* the next problem of the history, in the same process
+NextBuild ==
+    /\ pc = "done" /\ bi < Len(h.builds)
+    /\ bi' = bi + 1 /\ pc' = "start"
+    /\ UNCHANGED <<h, stage, groups, all, ei, out, memo>>
 
 Next == Start \/ GroupEquations \/ Flatten \/ CheckDest \/ CheckSources
-        \/ CheckProps \/ EvalDone \/ Helpers \/ Codegen
+        \/ CheckProps \/ EvalDone \/ Helpers \/ Codegen \/ NextBuild
 Spec == Init /\ [][Next]_vars
 
 -----------------------------------------------------------------------------
 Done == pc = "done"
 Functional == (Done /\ Variant = NV) => out = M_Outcome(SymTab, case, NV)
-\* the statement, nothing masked
+\* the statement, nothing masked (every build of a history on its own)
 Contract == Done => Failed(SymTab, case, out) = {}
 \* every departure from the statement is a finding of K
 ContractOrKnown ==
